@@ -2,6 +2,7 @@
 package c10
 
 import (
+	"time"
 	"github.com/csgura/fp"
 	"github.com/csgura/fp/as"
 	"github.com/csgura/fp/hlist"
@@ -335,6 +336,8 @@ func VH_c10_time() {
 	pairLaws(ord.Time, a, b, "Time")
 	before := a.Unix() < b.Unix() || (a.Unix() == b.Unix() && a.Nanosecond() < b.Nanosecond())
 	zz.Assert(ord.Time.Less(a, b) == before, "Time: Less is chronological order")
+	a2 := a.In(time.FixedZone("X", 3600))
+	zz.Assert(ord.Time.Eqv(a, a2) && !ord.Time.Less(a, a2) && !ord.Time.Less(a2, a) && ord.Time.Compare(a2, b) == ord.Time.Compare(a, b), "Time: the order does not depend on the zone")
 }
 
 func VH_c10_time_trans() {
